@@ -406,7 +406,8 @@ class Check(object):
               'coverage': cov, 'assumptions': self.assumptions, 'wall_s': round(time.time() - self.t0, 2),
               'violations': len(self.violations)}
         os.makedirs(os.path.join(VERIF, 'evidence'), exist_ok=True)
-        with open(os.path.join(VERIF, 'evidence', self.pid + '.json'), 'w') as fo:
+        name = self.pid + ('.replay' if getattr(self, 'is_replay', False) else '') + '.json'
+        with open(os.path.join(VERIF, 'evidence', name), 'w') as fo:
             json.dump(ev, fo, indent=1, sort_keys=True)
         print('%s %s: states=%d traces=%d evaluations=%d violations=%d known=%d wall=%.1fs' % (
             self.pid, self.tier, cov['states'], cov['traces_validated_against_impl'], cov['evaluations'],
